@@ -296,7 +296,17 @@ EntryH == [items |-> <<TsItem("T1"), ValItem("u64", BaseVal("u64").call), ValIte
                        ValItem("rich", BaseVal("rich").call), ValItem("richi", BaseVal("richi").call),
                        ValItem("str", BaseVal("str").call)>>,
            sg |-> <<"op">>]
-BaseEntry(b) == CASE b = "H" -> EntryH [] b = "E" -> EntryE [] b = "G" -> EntryG [] b = "0" -> EntryEmpty [] b \in SgBases -> EntryS(b)
+\* small entries that differ in the timestamp items of their sequence: none, two equal ones (both halves of
+\* a merge stamping the same request start), two different ones, equal-different-equal.  (One timestamp:
+\* every other entry.)  A timestamp item is an item like any other: wrappers hand on each of them, in order.
+TsBases == {"T0", "T2e", "T2d", "T3"}
+EntryT(b) ==
+    [items |-> CASE b = "T0"  -> <<ValItem("u64", BaseVal("u64").call)>>
+                 [] b = "T2e" -> <<TsItem("T1"), ValItem("u64", BaseVal("u64").call), TsItem("T1")>>
+                 [] b = "T2d" -> <<TsItem("T1"), ValItem("u64", BaseVal("u64").call), TsItem("T2")>>
+                 [] b = "T3"  -> <<TsItem("T1"), TsItem("T1"), TsItem("T2"), ValItem("u64", BaseVal("u64").call), TsItem("T1")>>,
+     sg |-> <<>>]
+BaseEntry(b) == CASE b \in TsBases -> EntryT(b) [] b = "H" -> EntryH [] b = "E" -> EntryE [] b = "G" -> EntryG [] b = "0" -> EntryEmpty [] b \in SgBases -> EntryS(b)
 
 (* Entry wrappers: [w, ds, deny, f] *)
 EW(w) == [w |-> w, ds |-> <<>>, deny |-> {}, f |-> ""]
